@@ -75,6 +75,8 @@ def main():
             print(c, verdicts[c]["verdict"], verdicts[c]["violations"], f"{verdicts[c]['seconds']}s")
     finally:
         sh("git -C /repo checkout -- .")
+        # leave neither a harness binary nor a generated Coq table (Gen/*.v) built from the changed tree behind
+        sh("cd /verif && python3 tools/regen.py")
     meta["checks_run_against_it"] = verdicts
     json.dump(meta, open(os.path.join(dst, "meta.json"), "w"), indent=1, ensure_ascii=False)
     return 0
